@@ -233,7 +233,9 @@ func c05Open(c *eng.Ctx, k *kvAnalysis) {
 	for f := range dbReaders(c) {
 		var readKS, decrypt, newAEAD *ssa.Call
 		var verIf *ssa.If
-		eng.Instrs(f, func(in ssa.Instruction) {
+		root := f
+		// the chain may be spread over helpers of the reading function
+		eng.InstrsDeep(f, func(_ *ssa.Function, in ssa.Instruction) {
 			switch x := in.(type) {
 			case *ssa.Call:
 				if cal := x.Call.StaticCallee(); cal != nil && cal.Name() == "ReadWithAssociatedData" {
@@ -259,12 +261,13 @@ func c05Open(c *eng.Ctx, k *kvAnalysis) {
 		}
 		// chain: decrypt receiver = aead.New(dek), dek = readKS#0, kek argument = f's tink.AEAD parameter
 		var kekP *ssa.Parameter
-		for _, prm := range f.Params {
+		for _, prm := range root.Params {
 			if eng.IsNamed(prm.Type(), "github.com/tink-crypto/tink-go/v2/tink", "AEAD") {
 				kekP = prm
 			}
 		}
-		okChain := eng.Same(decrypt.Call.Value, firstResult(newAEAD)) && eng.Same(newAEAD.Call.Args[0], firstResult(readKS)) && kekP != nil && eng.Origin(readKS.Call.Args[1]) == ssa.Value(kekP)
+		f = decrypt.Parent()
+		okChain := eng.Same(decrypt.Call.Value, firstResult(newAEAD)) && eng.Same(newAEAD.Call.Args[0], firstResult(readKS)) && kekP != nil && eng.OriginX(readKS.Call.Args[1]) == eng.OriginX(kekP)
 		c.Check(okChain, "R-C05-5", f, decrypt.Pos(), "decryption chain in "+f.Name(), "the database is decrypted with the cipher of the DEK that the caller's key-encryption key unwrapped", "")
 		// versions fed to the contexts are the checked wrapped.Version
 		for _, call := range []*ssa.Call{readKS, decrypt} {
@@ -273,7 +276,14 @@ func c05Open(c *eng.Ctx, k *kvAnalysis) {
 			okCtx := false
 			if cc != nil {
 				if fr, _, isF := eng.LoadedField(cc.Call.Args[0]); isF && fr.Is("db", "wrapped", "Version") {
-					okCtx = verIf != nil && verIf.Block().Dominates(call.Block())
+					// the version was tested before (possibly before the helper holding this call was entered)
+					for _, cond := range eng.FactsX(call) {
+						if _, xx, _, isCmp := cond.Cmp(); isCmp && verIf != nil {
+							if fr2, _, isF2 := eng.LoadedField(xx); isF2 && fr2.Is("db", "wrapped", "Version") {
+								okCtx = true
+							}
+						}
+					}
 				}
 				if _, isK := eng.ConstInt(cc.Call.Args[0]); isK {
 					okCtx = true
@@ -282,13 +292,19 @@ func c05Open(c *eng.Ctx, k *kvAnalysis) {
 			c.Check(okCtx && !eng.IsNilConst(eng.Origin(ctxArg)), "R-C05-4", f, call.Pos(), "associated data of "+eng.CallStr(&call.Call), "non-nil context built from the schema version that was checked first", "")
 		}
 		// the kv literal is dominated by version check and both nil errors
-		eng.Instrs(f, func(in ssa.Instruction) {
+		eng.InstrsDeep(root, func(f *ssa.Function, in ssa.Instruction) {
 			al, ok := in.(*ssa.Alloc)
 			if !ok || !al.Heap || !eng.IsNamed(al.Type(), "db", "kv") {
 				return
 			}
+			if hit, _ := eng.SearchX(root, nil, nil, nil, func(x ssa.Instruction) bool { return x == ssa.Instruction(decrypt) }); hit == nil {
+				return
+			}
+			if f != decrypt.Parent() {
+				return // the creating branch: judged by C04
+			}
 			var okKS, okDec, okVer bool
-			for _, cond := range eng.FactsAt(in) {
+			for _, cond := range eng.FactsX(in) {
 				if v, isNil, isE := cond.ErrCheck(); isE && isNil {
 					// err is reassigned: compare through the call it came from
 					if call, _ := eng.TupleCall(v); call != nil {
